@@ -5,6 +5,7 @@ import (
 	"fmt"
 	"math"
 	"reflect"
+	"strings"
 	"time"
 
 	kruisev1alpha1 "github.com/openkruise/kruise-api/apps/v1alpha1"
@@ -161,6 +162,9 @@ func asReadRollout(t *Task, k ObjKey) *v1beta1.Rollout {
 type coreOracle struct {
 	baseOracle
 	sc *Scenario
+	// image of the pod template that each canary revision recorded in the Rollout status stands for (as read by the
+	// reconcile that recorded it)
+	imgOf map[string]string
 }
 
 func (o *coreOracle) Name() string { return "core" }
@@ -376,6 +380,38 @@ func (o *coreOracle) checkRolloutStatus(s *Sim, w *Write) {
 		planChanged = true
 	}
 
+	// C10 R2: a reconcile that has seen the template reverted, or replaced by a newer one, never finalises the release
+	// as a success (rollback ends "not succeeded", supersession restarts from step one)
+	if t := s.cur; t != nil {
+		if rr, ok := t.LastRead[ObjKey{GK: workloadGK(o.sc), NS: o.sc.NS, Name: o.sc.Name}]; ok && rr.Found {
+			if tpl := workloadTemplate(rr.Obj.(client.Object)); tpl != nil && len(tpl.Spec.Containers) > 0 {
+				img := tpl.Spec.Containers[0].Image
+				if o.imgOf == nil {
+					o.imgOf = map[string]string{}
+				}
+				canaryRev := func(r *v1beta1.Rollout) string {
+					if r.Status.IsSubStatusEmpty() {
+						return ""
+					}
+					return r.Status.GetCanaryRevision()
+				}
+				if cr := canaryRev(nr); cr != "" && cr != canaryRev(rd) {
+					o.imgOf[cr] = img
+				}
+				if rd.Status.Phase == v1beta1.RolloutPhaseProgressing && rReason == v1alpha1.ProgressingReasonInRolling && nReason == v1alpha1.ProgressingReasonFinalising && !rd.Spec.Strategy.Paused {
+					s.probe("c10.finalising-decisions")
+					if rel, ok := o.imgOf[canaryRev(rd)]; ok && rel != img {
+						kind := "supersession"
+						if img == "app:v1" {
+							kind = "rollback"
+						}
+						s.Violate("C10", "R2-outcome", "R2/"+kind+"/"+fam, w.Seq, "the reconcile read the workload with template %s while releasing %s (revision %s) and still moved the Rollout to Finalising (success path)", img, rel, canaryRev(rd))
+					}
+				}
+			}
+		}
+	}
+
 	// G5: paused rollouts make no forward progress
 	if paused && rs != nil && ns != nil {
 		fwd := ns.CurrentStepIndex > rs.CurrentStepIndex || (ns.CurrentStepIndex == rs.CurrentStepIndex && stepRank(ns.CurrentStepState) > stepRank(rs.CurrentStepState))
@@ -564,7 +600,28 @@ func (o *coreOracle) checkBRStatusWrite(s *Sim, w *Write) {
 		wl := s.Store.Peek(ObjKey{GK: gk, NS: rd.Namespace, Name: ref.Name})
 		if wl != nil && wl.GetDeletionTimestamp() == nil {
 			if controlledByUID(wl) == string(rd.UID) {
-				s.Violate("C11", "B3-completed", "B3/control/"+fam, w.Seq, "BatchRelease reported Completed while %s %s still carries its control annotation", ref.Kind, ref.Name)
+				// did the finalising reconcile see the claim at all?  (The claim is this controller's own earlier write; with
+				// the informer behind, Finalize reads a workload that is "not controlled" and returns at once.)
+				tag := ""
+				if t := s.cur; t != nil {
+					if rr, ok := t.LastRead[ObjKey{GK: gk, NS: rd.Namespace, Name: ref.Name}]; ok && rr.Found && controlledByUID(rr.Obj.(client.Object)) != string(rd.UID) {
+						tag = "/claim-not-seen"
+						if s.Flags == nil {
+							s.Flags = map[string]bool{}
+						}
+						s.Flags["br-completed-claim-not-seen/"+string(rd.UID)] = true
+					}
+				}
+				s.Violate("C11", "B3-completed", "B3/control/"+fam+tag, w.Seq, "BatchRelease reported Completed while %s %s still carries its control annotation", ref.Kind, ref.Name)
+			}
+			// where the policy is to wait (canary-style Deployment, waitResume): every pod is updated, on every attempt.
+			// Authoritative store: nothing the controller can have read is fresher, and updated pods do not turn back.
+			if d, ok := wl.(*appsv1.Deployment); ok && rd.Spec.ReleasePlan.FinalizingPolicy == v1beta1.WaitResumeFinalizingPolicyType &&
+				(rd.Spec.ReleasePlan.RollingStyle == v1beta1.CanaryRollingStyle || rd.Spec.ReleasePlan.EnableExtraWorkloadForCanary) && rd.Spec.ReleasePlan.BatchPartition == nil {
+				s.probe("c11.completed-waitresume")
+				if d.Status.ObservedGeneration == d.Generation && d.Status.UpdatedReplicas != d.Status.Replicas && !strings.Contains(s.firedEvents(), "scale") {
+					s.Violate("C11", "B3-completed", "B3/wait/"+fam, w.Seq, "BatchRelease (policy waitResume) reported Completed while Deployment %s has %d of %d pods updated", ref.Name, d.Status.UpdatedReplicas, d.Status.Replicas)
+				}
 			}
 		}
 	}
